@@ -145,3 +145,58 @@ Proof.
   split; [vm_compute; reflexivity|]. split; [vm_compute; reflexivity|]. split; [vm_compute; reflexivity|].
   split; [vm_compute; discriminate|]. split; [vm_compute; reflexivity|]. split; vm_compute; reflexivity.
 Qed.
+
+(* ------------------------------------------------------------------ *)
+(* every API call of the statement is a step of the model, each with its own refinement theorem *)
+Theorem api_parse_proof c s f now : Inv s -> Inv4 s -> fsum_wf f ->
+  forall k, abs (fst (step c s (Rx f now))) k =
+            match ref_event c f with Some (m, k0) => sight m k0 now (abs s) k | None => abs s k end.
+Proof.
+  intros I I4 W k. rewrite (C04_step_proof c s (Rx f now) I I4 Logic.I W k). cbn [ref_step].
+  destruct (ref_event c f) as [[m k0]|]; reflexivity.
+Qed.
+
+Theorem api_notify_proof c s : Inv s -> Inv4 s -> forall k, abs (fst (step c s Notify)) k = abs s k.
+Proof. intros I I4 k. apply (C04_step_proof c s Notify I I4 Logic.I Logic.I k). Qed.
+
+Theorem api_dhcp_update_proof c s m k0 name now : Inv s -> Inv4 s ->
+  forall k, abs (fst (step c s (DHCPv4Update m k0 name now))) k =
+            if is_valid k0 && negb (is_unspecified k0) then sight m k0 now (abs s) k else abs s k.
+Proof.
+  intros I I4 k. rewrite (C04_step_proof c s (DHCPv4Update m k0 name now) I I4 Logic.I Logic.I k). cbn [ref_step].
+  destruct (is_valid k0 && negb (is_unspecified k0)); reflexivity.
+Qed.
+
+Theorem api_set_offer_proof c s m k0 name : Inv s -> Inv4 s -> forall k, abs (fst (step c s (SetOffer m k0 name))) k = abs s k.
+Proof. intros I I4 k. apply (C04_step_proof c s (SetOffer m k0 name) I I4 Logic.I Logic.I k). Qed.
+
+Theorem api_capture_proof c s m : Inv s -> Inv4 s -> forall k, abs (fst (step c s (Capture m))) k = abs s k.
+Proof. intros I I4 k. apply (C04_step_proof c s (Capture m) I I4 Logic.I Logic.I k). Qed.
+
+Theorem api_release_proof c s m : Inv s -> Inv4 s -> forall k, abs (fst (step c s (Release m))) k = abs s k.
+Proof. intros I I4 k. apply (C04_step_proof c s (Release m) I I4 Logic.I Logic.I k). Qed.
+
+Theorem api_purge_proof c s now order : Inv s -> Inv4 s -> order_complete s (Purge now order) ->
+  forall k, abs (fst (step c s (Purge now order))) k = age c now (abs s) k.
+Proof. intros I I4 OC k. apply (C04_step_proof c s (Purge now order) I I4 OC Logic.I k). Qed.
+
+Theorem api_name_update_proof c s kd k0 name : Inv s -> Inv4 s -> forall k, abs (fst (step c s (NameUpdate kd k0 name))) k = abs s k.
+Proof. intros I I4 k. apply (C04_step_proof c s (NameUpdate kd k0 name) I I4 Logic.I Logic.I k). Qed.
+
+(* NewSession's validation of the deadlines (brought into the model: [deadlines_okb]): the only ordering it enforces is
+   Probe <= Offline; PurgeDeadline may lie anywhere *)
+Theorem deadlines_ok_order p o u : deadlines_okb p o u = true -> (p <> 0 -> o <> 0 -> u <> 0 ->
+  0 < p <= max_probe /\ p <= o <= max_offline /\ 0 < u <= max_purge)%Z.
+Proof.
+  unfold deadlines_okb. intros H P O U.
+  apply orb_true_iff in H. destruct H as [H|H].
+  - apply orb_true_iff in H. destruct H as [H|H]; [apply orb_true_iff in H; destruct H as [H|H]|]; apply Z.eqb_eq in H; contradiction.
+  - repeat (apply andb_prop in H; destruct H as [H ?]).
+    repeat match goal with X : (_ <? _)%Z = true |- _ => apply Z.ltb_lt in X | X : (_ <=? _)%Z = true |- _ => apply Z.leb_le in X end.
+    lia.
+Qed.
+
+Lemma deadlines_purge_free :
+  deadlines_okb 120 300 60 = true /\ deadlines_okb 60 300 120 = true /\ deadlines_okb 120 300 3660 = true /\
+  deadlines_okb 300 120 3660 = false /\ deadlines_okb default_probe default_offline default_purge = true.
+Proof. repeat split; reflexivity. Qed.
